@@ -20,6 +20,22 @@ NA = {
  "C28": "minicbor derive output and the brotli codec (macro-generated code and a large external codec); size-limit loop needs ~1000 iterations with an external reader (DESIGN §6)",
 }
 
+K_FIFO = "not decided: its contract is stated in DESIGN §4 over the per-transaction kernel (index_transaction_sats, U-FIFO), but the extracted kernel did not finish under Kani/CBMC even for 2 ranges x 2 outputs (20 min), and Verus rejects its redb/HashMap/iterator code; a smaller stand-in would be a model, not the code (DESIGN §6)"
+K_INS = "not decided: lives in InscriptionUpdater::index_inscriptions over redb tables, HashMaps and Vec sorting inside the `ord` crate; no engine for `ord`-crate files was built and the function is outside both verifiers' reach without rewriting it (DESIGN §6)"
+K_RUNES = "not decided as a whole: the leaf contracts it rests on are proved under C25 (Etching::supply, Edict::from_integers, RuneId delta/next), but the per-transaction kernel RuneUpdater::index_runes (HashMap<RuneId, Lot>, redb tables, `ord` crate) was not brought under a verifier (DESIGN §6)"
+K_ORD = "not decided: the functions live in the `ord` crate (src/), for which no extraction engine was built in the budget; the `ordinals`-crate parts are covered under C25/C26/C30-C33 (DESIGN §6)"
+UNBUILT = {
+ "C01": K_FIFO, "C02": K_FIFO, "C03": K_FIFO + "; the inscription-movement half is in index_inscriptions (see C04)",
+ "C04": K_INS, "C05": K_INS, "C06": K_INS, "C07": K_INS,
+ "C08": K_RUNES, "C09": K_RUNES, "C10": K_RUNES, "C11": K_RUNES,
+ "C16": "not decided as stated (whole-chain totality): the totality of Runestone::integers and varint::decode is proved under C25/C26 and parser panic-freedom under C31, but envelope parsing, Properties::from_cbor and the updaters are in the `ord` crate with no engine built (DESIGN §6)",
+ "C20": K_ORD + "; TransactionBuilder is additionally ~1000 lines over BTreeMap/Vec state",
+ "C27": K_ORD + "; envelope parsing runs on bitcoin::script::Instructions",
+ "C34": K_ORD + "; Decimal::from_str is string-level code that CBMC did not finish on 7 characters (40 min); two overflow defects are known from reading only (DESIGN §5) and are NOT decided by any check here",
+ "C35": K_ORD, "C36": K_ORD,
+ "C37": K_RUNES + "; the inscription events are emitted from index_inscriptions (see C04)",
+}
+
 TEXT = json.load(open(os.path.join(VERIF, "tools/manifest_text.json")))
 
 def gen():
@@ -48,7 +64,7 @@ def gen():
     for p in props:
         if p in claimed:
             continue
-        na.append({"property_id": p, "reason": NA.get(p, TEXT.get(p, {}).get("na", "check under construction in this session; not claimed until its harnesses pass on the unchanged tree"))})
+        na.append({"property_id": p, "reason": NA.get(p, TEXT.get(p, {}).get("na", UNBUILT.get(p, "not decided: no unit of this family was brought to a passing, seeded-break-detecting state within the budget (DESIGN §6)")))})
     m = {
         "version": 1,
         "setup_cmd": "./setup.sh",
